@@ -98,7 +98,13 @@ def run(ctx):
     if proof_ok:
         dis["sortsig"] = common.run_stream(ctx, "sortsig", ops, cwd=wd)
     ctx.sample(ops[0])
-    failures = run_e2e(ctx, ctx.pick(20, 120), ctx.pick(4, 10))
+    # implementation-level oracle: the real getter must give one order for one map content (4 calls, fresh iteration order each)
+    failures = []
+    for a, op in zip(common.run_lines(ctx.godrv, ops[:1500], cwd=wd), ops[:1500]):
+        if a.startswith("NONDET"):
+            failures.append({"kind": "sorted-signatures-differ-between-calls", "op": op, "observed": a[:1500], "key": ["nondet-unit", op.split(" ")[1]],
+                             "replay_cmd": "echo '<op>' | godrv  # built from /repo with -tags verif"})
+    failures += run_e2e(ctx, ctx.pick(20, 120), ctx.pick(4, 10))
 
     def search():
         return run_e2e(ctx, 60, 8)
